@@ -35,6 +35,14 @@ CLAIMED = {
         "Trusted: numpy transpose/reshape used to build twins; einx is compared with itself, so a defect that is itself equivariant is left to C01.",
         "DESIGN.md §4 C08",
     ),
+    "C09": (
+        "property-based testing with memory-layout injection and before/after snapshots of every argument (Hypothesis)",
+        "Generated-input search: generated calls of all families, solve_*/matches and graph=True requests are run with arguments in drawn layouts "
+        "(transposed and strided views, read-only broadcast views, writeable=False) and size objects of several kinds; byte-level snapshots of base buffers, "
+        "shapes, strides, dtypes and flags must be unchanged (first *_at tensor excepted), and read-only inputs must not break a call. Exploration only.",
+        "Trusted: numpy flags/strides/tobytes as observation of mutation. numpy-family backends only.",
+        "DESIGN.md §4 C09",
+    ),
 }
 NOT_YET = "check not built yet in this round (see DESIGN.md §8 build order); the property has an executable oracle and will be claimed once its check is registered"
 
